@@ -10,6 +10,7 @@ from ..layout import F, K, A, B, CRC
 from ..linear import Lin, linearize
 from ..bits import data_bits_be, field_bits, BitCtx
 from .. import rules as R
+from .. import decode_rules as D
 
 MOD = "ccsds.spacepacket"
 
@@ -118,6 +119,7 @@ def run(ck):
                 ck.proved("G-REFUSE", "SpacePacketHeader.unpack", f"refusal `{r['text'][:60]}` is a ValueError", r["exc"], nontrivial=False)
             else:
                 ck.refuted("G-REFUSE", "SpacePacketHeader.unpack", f"refusal `{r['text'][:60]}` is a ValueError", r["exc"])
+    D.check_short_refusals_justified(ck, it, "SpacePacketHeader.unpack", "data", C(6), "the 6 header octets (any octet string of length >= 6 is decoded)")
     ck.floor("reads in SpacePacketHeader.unpack", len(it.reads), 4)
 
     # ---------------------------------------------------------------- W-VAL PacketId / PacketSeqCtrl
